@@ -259,6 +259,8 @@ def harness_for(bu, g):
     if ret != 'void':
         call = '%s __r = %s' % (ret, call)
     si = '' if any(re.search(r'\b%s\(' % re.escape(g.enforce), x) for x in bu.em.global_inits) else '__verif_static_init();'
+    if g.attrs.get('static_init') == 'no':
+        si = ''      # the unit's dynamic initialisers (e.g. a sysconf() call) are irrelevant to the group: the constants are pinned by requires clauses
     return 'void %s(void)\n{\n%s\n  __exc = 0;\n  %s\n  VERIF_EXCLUDE;\n  %s\n  VERIF_CANARY;\n}\n' % (name, '\n'.join(decls), si, call)
 
 
